@@ -22,12 +22,12 @@ def flat_json(ed, ids, nsub, cmp_, subsets, ident=None, sec2=None, lengths=None)
               f['intlsub'], f['localsub'], f['mversion'], f['lversion'], f['year'], f['month'], f['day'],
               f['hour'], f['minute'], f['second']]
     elif ed == 3:
-        s1 = [L.get(1, 0), f['master'], f['subcentre'], f['centre'], f['update'], has2, '0000000', f['category'],
-              f['localsub'], f['mversion'], f['lversion'], f['year'] % 100, f['month'], f['day'],
+        s1 = [L.get(1, 0), f['master'], f['subcentre'] % 256, f['centre'] % 256, f['update'], has2, '0000000', f['category'],
+              f['localsub'], f['mversion'], f['lversion'], f.get('yoc', f['year'] % 100), f['month'], f['day'],
               f['hour'], f['minute'], f['second']]
     elif ed == 2:
         s1 = [L.get(1, 0), f['master'], f['centre'], f['update'], has2, '0000000', f['category'],
-              f['localsub'], f['mversion'], f['lversion'], f['year'] % 100, f['month'], f['day'],
+              f['localsub'], f['mversion'], f['lversion'], f.get('yoc', f['year'] % 100), f['month'], f['day'],
               f['hour'], f['minute'], f['second']]
     else:
         raise ValueError(ed)
